@@ -358,7 +358,7 @@ func (e *env) rawClient(ci int, rng *rand.Rand, addr string) {
 				case isTimeout(rerr):
 					e.r.Inconclusive(fmt.Sprintf("case %d: read watchdog fired waiting for a response", c.Index))
 				case isConnEnd(rerr):
-					e.violate("c10:keepalive:connection-closed-early", fmt.Sprintf("raw client, connection %s: no request so far dictated a close, %d responses of this batch were read, then the stream ended (%v) instead of the response to %s\nevents of the connection:\n%s", name, i, rerr, p, e.log.Slice(name, 40)))
+					e.violate("c10:keepalive:connection-closed-early", fmt.Sprintf("raw client, connection %s (%s): no request so far dictated a close, %d responses of this batch were read, then the stream ended (%v) instead of the response to %s\nwhat the server reported for this connection:\n%sevents of the connection:\n%s", name, nc.LocalAddr(), i, rerr, p, e.log.Slice(nc.LocalAddr().String(), 6), e.log.Slice(name, 30)))
 				default:
 					e.violate("c10:"+e.cls+":response-undecodable", fmt.Sprintf("raw client, connection %s: reading the response to %s failed: %v\nevents of the connection:\n%s", name, p, rerr, e.log.Slice(name, 40)))
 				}
